@@ -78,8 +78,10 @@ class Config(_mixins.CodeMixin):
         max_sample_generation_trials: int = 1000,
     ):
         self._original_seed_sequence = seed_sequence
-        self.seed_sequence = seed_sequence or int.from_bytes(
-            os.urandom(8), byteorder="big"
+        self.seed_sequence = (
+            seed_sequence
+            if seed_sequence is not None
+            else int.from_bytes(os.urandom(8), byteorder="big")
         )
         self.cache_size = cache_size
         self.hbar = hbar
@@ -157,7 +159,9 @@ class Config(_mixins.CodeMixin):
     def seed_sequence(self, value: Any) -> None:
         self._seed_sequence = value
         self.rng = np.random.default_rng(self._seed_sequence)
-        random.seed(self._seed_sequence)
+        # NOTE: A dedicated generator is used instead of (re)seeding the global `random`
+        # module, so that the samples only depend on the seed of this config.
+        self.python_rng = random.Random(self._seed_sequence)
 
     @property
     def complex_dtype(self):
@@ -180,6 +184,7 @@ class Config(_mixins.CodeMixin):
         # NOTE: We want to preserve the RNG, otherwise simulations may lead to repeated
         # samples if the user reuses the simulator.
         config_copy.rng = self.rng
+        config_copy.python_rng = self.python_rng
 
         return config_copy
 
